@@ -976,6 +976,13 @@ class Interp:
         depth = fr.loop_depth
         lid = f"L{depth}"
         is_for = isinstance(s, ast.For)
+        guard_term = None
+        if is_for and it is not None and it.kind == "arr" and isinstance(it.term, Term) and it.term.op == "nonzero1":
+            # for j in np.flatnonzero(m): body   ==   for j in range(len(m)): if m[j]: body
+            msh = self.term_shape(it.term.args[0])
+            if msh is not None and len(msh) == 1:
+                guard_term = T("getitem", it.term.args[0], T("lv", lid))
+                it = V("range", T("range", self.api.dim_term(Dim(0)), self.api.dim_term(msh[0])), labels=it.labels, extra=(Dim(0), msh[0]))
         iter_term = it.term if it is not None else T("while")
 
         def loopvar(state):
@@ -1029,6 +1036,13 @@ class Interp:
             head_terms[(where, key)] = hv.term
             self._set_binding(head, where, key, hv)
         alive2, cterm, rets = run(head)
+        if guard_term is not None and alive2:
+            for where, key in changed:
+                ht = head_terms.get((where, key))
+                bv = self._get_binding(head, where, key)
+                init = self._get_binding(pre, where, key)
+                if ht is not None and bv is not None and init is not None and init.kind != "undef" and bv.term != ht and bv.kind != "maybe":
+                    self._set_binding(head, where, key, bv.replace(term=T("phi", guard_term, bv.term, ht), has_const=False, const_=None, items=None))
         fr.loop_depth -= 1
         # returns inside the loop body: keep them, marked as conditional on the loop
         fixed = []
@@ -1057,6 +1071,8 @@ class Interp:
                 asc = self._append_loop_as_comp(it, lid, init, head_terms.get((where, key)), body_v)
                 if asc is None:
                     asc = self._fold_loop(it, lid, init, head_terms.get((where, key)), body_v, out)
+                if asc is None:
+                    asc = self._store_loop(it, lid, init, head_terms.get((where, key)), body_v)
                 if asc is not None:
                     self._set_binding(out, where, key, asc)
                     continue
@@ -1530,6 +1546,39 @@ class Interp:
             out[k] = body_v.replace(term=newt, labels=labels, has_const=False, const_=None, items=None, dim=None)
         return out
 
+    def _store_loop(self, it, lid, init, head_t, body_v):
+        """for j in range(n): out[j] = e(j)   /   out[j, c] = e(j)   /   out[c, j] = e(j)
+        fills the whole axis of extent n with the vector [e(j)]"""
+        if it is None or init is None or body_v is None or head_t is None or init.kind != "arr" or init.shape is None:
+            return None
+        t = body_v.term
+        if not isinstance(t, Term) or t.op != "store" or t.args[0] != head_t:
+            return None
+        n = self.api.length_dim(self, it)
+        if n is None or not n.known() or (it.kind == "range" and (it.extra is None or it.extra[0] != Dim(0))):
+            return None
+        lvt = T("lv", lid)
+        idx, e = t.args[1], t.args[2]
+        if loops.mentions_head(e, lid) or loops.mentions_head(idx, lid):
+            return None
+        esh = self.term_shape(e)
+        if esh is None or not all(d.is_const() and d.c == 1 for d in esh):
+            return None
+        vt = loops.vectorise(e, lvt, n, self.term_shape, self.api.dim_term)
+        if vt is None:
+            return None
+        none = const(None)
+        full = T("slice", none, none, none)
+        if idx == lvt and len(init.shape) == 1 and init.shape[0] == n:
+            return init.replace(term=vt, labels=init.labels | body_v.labels, has_const=False, const_=None, items=None)
+        if isinstance(idx, Term) and idx.op == "tuple" and len(idx.args) == 2 and len(init.shape) == 2:
+            a_, b_ = idx.args
+            if a_ == lvt and not loops.mentions(b_, lvt) and init.shape[0] == n and self.term_shape(b_) == ():
+                return init.replace(term=T("store", init.term, T("tuple", full, b_), vt), labels=init.labels | body_v.labels, has_const=False, const_=None, items=None)
+            if b_ == lvt and not loops.mentions(a_, lvt) and init.shape[1] == n and self.term_shape(a_) == ():
+                return init.replace(term=T("store", init.term, a_, vt), labels=init.labels | body_v.labels, has_const=False, const_=None, items=None)
+        return None
+
     def _fold_loop(self, it, lid, init, head_t, body_v, st):
         """acc = init; for x in xs: [if c:] acc = acc (+|&|min|max) e   ==   init (op) reduce(e over xs [where c])
         when neither e nor c reads a loop-carried value"""
@@ -1595,10 +1644,8 @@ class Interp:
             return None
         if last is None:
             last = V("unk", t.args[1], labels=body_v.labels)
-        for x in [t.args[1]] + conds:
-            for y in x.walk():
-                if (y.op == "head" and y.args[0] == lid) or (y.op == "loopctl"):
-                    return None
+        if any(loops.mentions_head(x, lid) for x in [t.args[1]] + conds):
+            return None
         cid = "C" + lid[1:]
         m = {T("lv", lid): T("lv", cid)}
         elt = last.replace(term=subst_term(last.term, m))
